@@ -191,6 +191,27 @@ func (c *Ctx) c19Whitelist() {
 					return false
 				})
 				_ = mm
+				if !ok2 {
+					// membership through the standard library: slices.Contains(whitelist, k),
+					// slices.Index(whitelist, k) >= 0 / != -1
+					ok2 = HasFact(FactsAtInstr(mu), func(f Fact) bool {
+						member := func(v ssa.Value, fn string) bool {
+							call, _ := CallOf(v)
+							if call == nil || !strings.HasPrefix(Callee(call), fn) || len(call.Common().Args) != 2 {
+								return false
+							}
+							return Arg(call, 1) == mu.Key && hasField(c.fieldOrigins(Arg(call, 0)), "Whitelist")
+						}
+						rel := f.Rel()
+						if rel.Op == token.ILLEGAL && rel.Pol && member(rel.B, "slices.Contains") {
+							return true
+						}
+						if n, isC := ConstInt(rel.Y); isC && member(rel.X, "slices.Index") {
+							return (rel.Op == token.GEQ && n == 0) || (rel.Op == token.GTR && n == -1) || (rel.Op == token.NEQ && n == -1)
+						}
+						return false
+					})
+				}
 				if !ok2 && hasField(c.fieldOrigins(mu.Key), "Whitelist") {
 					ok2 = true // the key written is itself an entry of the page's whitelist
 				}
